@@ -331,10 +331,12 @@ def phase2(rep, wd, tier):
                 continue
             n_obs += 1
             member = json.dumps({"m": ob["m"], "c": ob["c"]}, sort_keys=True) in allowed
-            if ob["outcome"] == "completed" and member:
+            # "deadlock" (the main shell blocked for ever) is part of the trace as the pseudo event
+            # DEADLOCK, so membership decides whether the specification allows it
+            if ob["outcome"] in ("completed", "deadlock") and member:
                 continue
             n_bad += 1
-            key = {"phase": "shell", "fam": o["fam"], "symptom": _shell_symptom(ob, o["allowed"]) if ob["outcome"] == "completed" else ob["outcome"],
+            key = {"phase": "shell", "fam": o["fam"], "symptom": _shell_symptom(ob, o["allowed"]) if ob["outcome"] in ("completed", "deadlock") else ob["outcome"],
                    "script": o["script"], "schedule": ob["schedule"]}
             rep.violation(key, f"whole shell, {o['fam']}: observed probe trace not allowed by TrapRun",
                           {"phase": "shell", "script": o["script"], "init": o["init"], "schedule": ob["schedule"],
@@ -515,7 +517,7 @@ def _replay_shell(path, rec):
     _, out, _ = vlib.run_harness(PKG, args)
     ob = json.loads(out.splitlines()[0])["observed"]
     allowed = {json.dumps({"m": a["m"], "c": a["c"]}, sort_keys=True) for a in rec["allowed"]}
-    ok = ob["outcome"] == "completed" and json.dumps({"m": ob["m"], "c": ob["c"]}, sort_keys=True) in allowed
+    ok = ob["outcome"] in ("completed", "deadlock") and json.dumps({"m": ob["m"], "c": ob["c"]}, sort_keys=True) in allowed
     print("observed:", json.dumps({"m": ob["m"], "c": ob["c"], "outcome": ob["outcome"]}))
     if ok:
         print("accepted")
